@@ -7,8 +7,11 @@ pub fn query<'a>(
     expr: &'a str,
     context: &mut eval::model::Context,
 ) -> error::Result<'a, eval::model::Value> {
-    let (rest, q) = expr::parse(expr).map_err(|v| error::Error::ExprSyntax(v.to_string()))?;
-    if !rest.is_empty() {
+    // White space may precede the first and follow the last token of an expression.
+    let is_space = |c: char| matches!(c, ' ' | '\t' | '\r' | '\n');
+    let (rest, q) = expr::parse(expr.trim_start_matches(is_space))
+        .map_err(|v| error::Error::ExprSyntax(v.to_string()))?;
+    if !rest.trim_start_matches(is_space).is_empty() {
         return Err(error::Error::ExprRemain(rest));
     }
 
